@@ -1,0 +1,26 @@
+//go:build verif
+
+package retry
+
+import (
+	"sync/atomic"
+	"time"
+)
+
+var verifBackoffFn atomic.Value // func(int, time.Duration) time.Duration
+
+// VerifSetBackoffObserver installs the back-off observer (verification hook).
+func VerifSetBackoffObserver(fn func(attempt int, d time.Duration) time.Duration) {
+	if fn == nil {
+		verifBackoffFn.Store((func(int, time.Duration) time.Duration)(nil))
+		return
+	}
+	verifBackoffFn.Store(fn)
+}
+
+func verifBackoff(attempt int, d time.Duration) time.Duration {
+	if fn, _ := verifBackoffFn.Load().(func(int, time.Duration) time.Duration); fn != nil {
+		return fn(attempt, d)
+	}
+	return d
+}
